@@ -26,14 +26,21 @@ def vs(n):
 
 class Opts(int):
     """option bits of the container (an int, so `opt & 2` keeps working) + the element limit `max`
-    of list/queue/stack (0 = unlimited)"""
+    of list/queue/stack (0 = unlimited) + `ints` (queue/stack hold int64 elements)"""
     max = 0
+    ints = 0
 
 
-def mk_opts(bits, mx=0):
+def mk_opts(bits, mx=0, ints=0):
     o = Opts(bits)
     o.max = mx
+    o.ints = ints
     return o
+
+
+def atoll(v):
+    m = re.match(r"\s*([+-]?\d+)", v)
+    return int(m.group(1)) if m else 0
 
 
 class Model:
@@ -45,7 +52,7 @@ class Model:
         if kind == "vector":
             self.s = [100 + i for i in range(init)]
         elif kind in ("list", "queue", "stack"):
-            self.s = [vs(100 + i) for i in range(init)]
+            self.s = [str(100 + i) if getattr(opt, "ints", 0) else vs(100 + i) for i in range(init)]
             if kind == "stack":
                 self.s.reverse()
         elif kind == "listtbl":
@@ -103,6 +110,22 @@ class Model:
                 return "null:0" if n == 0 else "arr:%d" % n + "".join(",%d" % x for x in s)
         elif k in ("list", "queue", "stack"):
             n = len(s)
+            # convenience wrappers of qqueue/qstack: each must behave as ONE list operation
+            if f == "pushint":
+                if self.max > 0 and n >= self.max:
+                    return "0"
+                s.append(str(a)) if k == "queue" else s.insert(0, str(a))
+                return "1"
+            if f == "popint":
+                return str(int(s.pop(0))) if n else "0"
+            if f == "getint":
+                return str(int(s[0])) if n else "0"
+            if f == "getstr":
+                return s[0] if n else "null"
+            if f == "pushstr":
+                f = "push"
+            if f == "popstr":
+                f = "pop"
             if k == "queue" and f == "push":
                 f, a = "addlast", a
             elif k == "stack" and f == "push":
@@ -148,11 +171,16 @@ class Model:
                 return "null" if n == 0 else "str:" + "".join(s)
         elif k == "listtbl":
             key = "k%02d" % a
-            if f == "put":
+            if f in ("put", "putstr", "putint", "putstrf"):
                 if self.opt & 2:
                     s[:] = [kv for kv in s if kv[0] != key]
-                s.append((key, vs(b))); return "1"
-            if f == "get":
+                s.append((key, vs(b) if f in ("put", "putstr") else str(b) if f == "putint" else "f-%d" % b)); return "1"
+            if f == "getint":
+                for kk, v in reversed(s):
+                    if kk == key:
+                        return str(atoll(v))
+                return "0"
+            if f in ("get", "getstr"):
                 for kk, v in reversed(s):
                     if kk == key:
                         return v
@@ -165,9 +193,15 @@ class Model:
                 del s[:]; return "void"
         else:
             key = "k%02d" % a
-            if f == "put":
+            if f in ("put", "putstr"):
                 s[key] = vs(b); return "1"
-            if f == "get":
+            if f == "putint" and k == "hashtbl":
+                s[key] = str(b); return "1"
+            if f == "putstrf":
+                s[key] = "f-%d" % b; return "1"
+            if f == "getint" and k == "hashtbl":
+                return str(atoll(s[key])) if key in s else "0"
+            if f in ("get", "getstr"):
                 return s.get(key, "null")
             if f == "remove":
                 return "1" if s.pop(key, None) is not None else "0"
@@ -210,7 +244,7 @@ def parse_prog(line):
                 ops.append((p[0], int(p[1]) if len(p) > 1 else 0, int(p[2]) if len(p) > 2 else 0))
             progs.append(ops)
     ob = d.get("opt", "0")
-    return kind, int(d.get("init", 0)), mk_opts(2 if ob == "unique" else int(ob), int(d.get("max", 0))), progs
+    return kind, int(d.get("init", 0)), mk_opts(2 if ob == "unique" else int(ob), int(d.get("max", 0)), int(d.get("ints", 0))), progs
 
 
 def linearizable(kind, init, opt, progs, opres, final):
@@ -310,6 +344,31 @@ FIXED = [
     "treetbl init=2 t0=put:1:9,remove:1 t1=put:1:8,get:1",
     "vector init=0 t0=addlast:1 t1=addlast:2 t2=addlast:3",
     "vector init=1 t0=addfirst:1,poplast t1=addlast:2",
+    # convenience wrappers (str/int variants): each call must be ONE atomic container operation
+    "queue init=2 ints=1 t0=popint t1=popint",
+    "queue init=3 ints=1 t0=popint,popint t1=popint",
+    "queue init=1 ints=1 t0=popint t1=pushint:7",
+    "queue init=2 ints=1 t0=popint t1=clear",
+    "queue init=1 ints=1 t0=getint,popint t1=pushint:7,popint",
+    "queue init=2 ints=1 t0=popint t1=popint t2=pushint:9",
+    "queue init=1 ints=1 max=2 t0=pushint:5 t1=pushint:6,popint",
+    "queue init=2 t0=popstr t1=popstr",
+    "queue init=1 t0=getstr,popstr t1=pushstr:5,popstr",
+    "stack init=2 ints=1 t0=popint t1=popint",
+    "stack init=3 ints=1 t0=popint,popint t1=popint",
+    "stack init=1 ints=1 t0=popint t1=pushint:7",
+    "stack init=2 ints=1 t0=popint t1=clear",
+    "stack init=1 ints=1 t0=getint,popint t1=pushint:7,getint",
+    "stack init=2 t0=popstr t1=popstr",
+    "stack init=1 t0=getstr,popstr t1=pushstr:5,popstr",
+    "hashtbl init=1 range=1 t0=getint:0,getint:1 t1=putint:0:5,putint:1:6",
+    "hashtbl init=1 range=3 t0=putint:0:5,getint:0 t1=putstrf:0:6,getstr:0",
+    "hashtbl init=1 range=1 t0=putint:0:5 t1=remove:0,getint:0",
+    "listtbl init=1 t0=getint:0,getint:1 t1=putint:0:5,putint:1:6",
+    "listtbl opt=unique init=1 t0=putint:0:5,getint:0 t1=putstrf:0:6,getstr:0",
+    "listtbl opt=unique init=1 t0=putint:0:5 t1=remove:0,getint:0",
+    "treetbl init=1 t0=putstrf:0:5,getstr:0 t1=putstr:0:6,getstr:0",
+    "treetbl init=2 t0=putstrf:1:5 t1=remove:1,getstr:1",
     "queue init=0 t0=push:1,pop t1=push:2,pop",
     "queue init=1 t0=pop t1=pop t2=push:3",
     "stack init=0 t0=push:1,pop t1=push:2,pop",
@@ -333,30 +392,34 @@ VOCAB = {
                "removefirst", "removelast", "removeat:I", "clear", "reverse", "toarray"],
     "list": ["addlast:V", "addfirst:V", "addat:I:V", "popfirst", "poplast", "popat:I", "getat:I", "removefirst",
              "removelast", "removeat:I", "clear", "reverse", "toarray", "tostring"],
-    "queue": ["push:V", "pop"], "stack": ["push:V", "pop"],
-    "hashtbl": ["put:K:V", "get:K", "remove:K", "clear"],
-    "listtbl": ["put:K:V", "get:K", "remove:K", "clear"],
-    "treetbl": ["put:K:V", "get:K", "remove:K", "clear", "min"],
+    "queue": ["push:V", "pop", "getstr", "clear"], "stack": ["push:V", "pop", "getstr", "clear"],
+    "queue-ints": ["pushint:V", "popint", "getint", "clear"], "stack-ints": ["pushint:V", "popint", "getint", "clear"],
+    "hashtbl": ["put:K:V", "get:K", "remove:K", "clear", "putint:K:V", "getint:K", "putstrf:K:V"],
+    "listtbl": ["put:K:V", "get:K", "remove:K", "clear", "putint:K:V", "getint:K", "putstrf:K:V"],
+    "treetbl": ["put:K:V", "get:K", "remove:K", "clear", "min", "putstrf:K:V"],
 }
 
 
 def random_program(rng):
     kind = rng.choice(list(VOCAB))
+    vocab = VOCAB[kind]
+    ints = kind.endswith("-ints")
+    kind = kind.split("-")[0]
     init = rng.randrange(0, 4)
     nt = rng.choice([2, 2, 2, 2, 2, 2, 2, 3])
     parts = []
     val = [0]
 
     def mk():
-        o = rng.choice(VOCAB[kind])
+        o = rng.choice(vocab)
         val[0] += 1
         return o.replace("V", str(val[0])).replace("I", str(rng.randrange(0, 3))).replace("K", str(rng.randrange(0, 3)))
     for t in range(nt):
         k = 1 if nt == 3 else rng.choice([1, 2, 2, 3] if t == 0 else [1, 1, 2])
         parts.append("t%d=%s" % (t, ",".join(mk() for _ in range(k))))
-    extra = ""
+    extra = " ints=1" if ints else ""
     if kind in ("list", "queue", "stack") and rng.random() < 0.4:
-        extra = " max=%d" % rng.choice([max(1, init), init + 1, init + 2])
+        extra += " max=%d" % rng.choice([max(1, init), init + 1, init + 2])
     if kind == "hashtbl":
         extra = " range=%d" % rng.choice([1, 3])
     if kind == "listtbl":
@@ -399,10 +462,14 @@ class TheCheck(Check):
                         n, "; ".join(c.describe(i) for i in bad[:6])))
                 if not c.balanced():
                     log("  translator: unbalanced skeleton\n" + c.problem_text())
+            for n in self.lock.atomic:
+                c = self.lock.cfgs[n]
+                if c.balanced() and not c.atomic():
+                    log("  translator: not one critical section per call\n" + c.atomic_problem_text())
         except SystemExit as e:
             self.lock = None
             pre = ["translator failed: %s" % e]
-        lc.prove(self, lc.cert_module_names("LockWl"))
+        lc.prove(self, lc.cert_module_names("LockWl") + lc.cert_module_names("LockAtomic"))
         self.proof["errors"] = pre + self.proof["errors"]
         try:
             impl_dir = vlib.build_impl("plain")
@@ -606,6 +673,8 @@ class TheCheck(Check):
                 if fn in self.lock.cfgs:
                     c = self.lock.cfgs[fn]
                     print("    unlocked accesses:", "; ".join(c.describe(i) for i in c.unlocked_accesses(self.lock.immutable)[:6]))
+                    if n.startswith("atomic_") and not c.atomic():
+                        print(c.atomic_problem_text())
             return 0 if ok else 1
         impl_dir = vlib.build_impl("plain")
         if ops and ops[0].startswith("hold "):
